@@ -43,6 +43,9 @@ CONSTANTS
   PadSel = {pads}
   ZoneClsSel = {zcls}
   MaxSel = {maxes}
+  OptIdx = {optidx}
+  SecSel = {secs}
+  QuestionSel = {qsel}
 INVARIANT Emit
 CHECK_DEADLOCK FALSE
 """
@@ -58,7 +61,7 @@ def tset(xs):
 def gen_cfg(ctx, name, **kw):
     d = dict(opcodes=tset([0]), maxrecs=2, names=tset([2, 3, 4]), targets=tset([2, 4]), kinds=tset(["A", "NS"]),
              forms=tset(ALL_FORMS), edns=tset(["off"]), rcodes=tset([0]), bits=tset([256]), origins=tset([False]),
-             ttls="TtlOne", txt=tset([]), txtn=tset([1]), big=tset([]), ids=tset([4660]), pads=tset([0]), zcls=tset([1]), maxes=tset([65535]))
+             ttls="TtlOne", txt=tset([]), txtn=tset([1]), big=tset([]), ids=tset([4660]), pads=tset([0]), zcls=tset([1]), maxes=tset([65535]), optidx=tset([0]), secs=tset([1, 2, 3]), qsel=tset([True, False]))
     d.update(kw)
     return ctx.cfg(name, GEN_CFG.format(**d))
 
@@ -77,7 +80,14 @@ def classify(tr, line, clause):
 
 def scripts_for(ctx, quick):
     S = []
-    g = lambda name, **kw: ctx.generate("Gen_Renderer", gen_cfg(ctx, name, **kw))
+    VARIANT_CFGS = ("g1c.cfg", "g2c.cfg", "g2d.cfg", "g3b.cfg", "g3c.cfg", "g4.cfg", "g9.cfg")
+    varkeys = set()
+
+    def g(name, **kw):
+        out = ctx.generate("Gen_Renderer", gen_cfg(ctx, name, **kw))
+        if name in VARIANT_CFGS:       # these also get the from_wire parameter sweep
+            varkeys.update(json.dumps(s, sort_keys=True) for s in out)
+        return out
     # G1: queries: every sharing pattern of owner / target names over <= 2 record sets
     S += g("g1.cfg", names=tset([2, 4] if quick else [2, 3, 4]), kinds=tset(["A", "NS"]), edns=tset(["off", "opts"]))
     S += g("g1c.cfg", names=tset([1, 3, 4]), targets=tset([3, 1]), kinds=tset(["NS"]))
@@ -92,6 +102,9 @@ def scripts_for(ctx, quick):
     # G2c: EDNS padding x extended rcode x EDNS version/flags/options (the padded OPT is rebuilt by the renderer)
     S += g("g2c.cfg", opcodes=tset([0, 5]), maxrecs=1, names=tset([2]), kinds=tset(["A"]), edns=tset(["v0", "do", "opts", "v1"]),
            rcodes=tset([0, 23, 4095]), pads=tset([16, 128]), forms=tset(["add"]), ids=tset([4660, 0]))
+    # G2d: every EDNS option code 0..20 and 65001 with boundary bodies, as generic (code, body) pairs
+    S += g("g2d.cfg", maxrecs=0, edns=tset(["v0"]), optidx=tset(range(1, 69)), qsel=tset([False]))
+    S += g("g2e.cfg", maxrecs=0, opcodes=tset([0, 5]), edns=tset(["opts"]), optidx=tset([8, 21, 33, 36, 47, 68]), pads=tset([0, 16]))
     # G3: dynamic updates: every RFC 2136 form
     S += g("g3.cfg", opcodes=tset([5]), names=tset([2, 4]), targets=tset([4]), kinds=tset(["A"] if quick else ["A", "NS"]))
     # G3b: updates of a zone whose class is not IN (CH): class ANY/NONE forms must come back with the ZONE's class
@@ -109,6 +122,13 @@ def scripts_for(ctx, quick):
            origins=tset([True]), forms=tset(["add", "rrset-exists", "del-rr"]))
     # G7: a 16 KiB opaque record pushes later names beyond offset 0x3FFF (not addressable by pointers)
     S += g("g7.cfg", names=tset([2]), targets=tset([2]), kinds=tset(["NS"]), big=tset([16350, 16360]), maxrecs=3)
+    # G7b: a multi-label name that STRADDLES offset 0x4000 (starts at 0x3FFC..0x3FFF): each of its suffixes lies on
+    #      either side of the pointer limit; followed by reuse of every suffix as owner and as RDATA name
+    S += g("g7b.cfg", names=tset([1, 2, 3]), targets=tset([1, 2]), kinds=tset(["NS"]), big=tset([16351, 16352, 16353, 16354]),
+           maxrecs=3, secs=tset([1]), qsel=tset([False]))
+    # G9: bodies larger than 512 octets and larger than the payload their own OPT advertises (512 / 1232): the parsed
+    #     message is re-rendered with DEFAULT to_wire() arguments
+    S += g("g9.cfg", names=tset([2]), kinds=tset(["TXT"]), txt=tset([250]), txtn=tset([3]), maxrecs=3, edns=tset(["v1", "v0"]))
     if not quick:
         S += g("g5.cfg", maxrecs=3, names=tset([2, 3, 4]), kinds=tset(["A", "NS"]), edns=tset(["do"]))
     # G6: long random messages over the whole universe
@@ -118,7 +138,7 @@ def scripts_for(ctx, quick):
         kinds=tset(["A", "NS", "RRSIG", "SOA", "SRV", "TXT"]), edns=tset(["off", "v0", "do", "opts", "v1"]),
         rcodes=tset([0, 3, 23, 4095]), bits=tset([0, 256, 33920]), origins=tset([False, True]), ttls="TtlMany",
         txt=tset([0, 1, 70])), simulate="num=%d" % n, depth=12, seed=ctx.seed + 1, deadlock=False)
-    return S
+    return S, varkeys
 
 
 def run(ctx):
@@ -133,11 +153,11 @@ def run(ctx):
     ctx.log("start")
     if ctx.replay_case:
         case = ctx.replay_case["case"]
-        jobs = [("replay", case["script"], case["mode"])]
+        jobs = [("replay", case["script"], case["mode"], True)]
         traces = [c03_message.run_job(jobs[0])]
     else:
         ctx.model("MC_Renderer", "MC_Renderer_quick.cfg" if quick else "MC_Renderer_thorough.cfg", workers=1 if quick else 16)
-        scripts = scripts_for(ctx, quick)
+        scripts, varkeys = scripts_for(ctx, quick)
         seen = set()
         jobs = []
         for s in scripts:
@@ -149,7 +169,7 @@ def run(ctx):
             if s[0]["max"] != 65535:
                 jobs.append(("s%d.low" % i, s, "low"))      # Message.to_wire clamps the limit to >= 512
                 continue
-            jobs.append(("s%d.direct" % i, s, "direct"))
+            jobs.append(("s%d.direct" % i, s, "direct", key in varkeys))
             if any(e.get("op") == "rr" and e["form"] != "plain" for e in s):
                 jobs.append(("s%d.builder" % i, s, "builder"))
         ctx.extra["scripts"] = len(seen)
@@ -176,7 +196,7 @@ def selftest(ctx):
     rr = lambda sec, name, kind, n1: {"op": "rr", "sec": sec, "name": name, "kind": kind, "n1": n1, "n2": [], "k": 1,
                                       "nrd": 1, "ttl": [0, 300], "form": "plain"}
     script = [{"op": "hdr", "id": 4660, "opcode": 0, "bits": 256, "rcode": 2561, "origin": False,
-               "edns": ["edns", 0, 32768, 1232, [[10, 8, 7]]], "pad": 0, "zcls": 1, "max": 65535},
+               "edns": ["edns", 0, 32768, 1232, [[10, [7] * 8]]], "pad": 0, "zcls": 1, "max": 65535},
               {"op": "q", "name": [[97], ex], "type": 1, "cls": 1},
               rr(1, [[65], [69, 88]], "NS", [[98], [97], ex]), rr(3, [[98], [97], ex], "A", []), {"op": "end"}]
     good = c03_message.run_job(("good", script, "direct"))
